@@ -435,9 +435,9 @@ type c05Stream struct {
 func (s *c05Stream) Send(m *auctioneerrpc.ClientAuctionMessage) error {
 	switch x := m.Msg.(type) {
 	case *auctioneerrpc.ClientAuctionMessage_Sign:
-		s.w.trace = append(s.w.trace, fmt.Sprintf("send:%d", len(x.Sign.AccountSigs)))
-		s.signs = append(s.signs, x.Sign)
 		d, _ := s.w.dbTok()
+		s.w.trace = append(s.w.trace, fmt.Sprintf("send:%d@%s", len(x.Sign.AccountSigs), d))
+		s.signs = append(s.signs, x.Sign)
 		s.dbAtSend = append(s.dbAtSend, d)
 		if s.failSign {
 			return errC05Injected
@@ -613,7 +613,7 @@ func newC05World(r *Run, c *c05Case) (*c05World, error) {
 
 		value := btcutil.Amount(2_000_000 + 10_000*i)
 		if c.Small == i+1 {
-			value = btcutil.Amount(order.SupplyUnit(c05ChanUnits).ToSatoshis()) + 1500
+			value = btcutil.Amount(order.SupplyUnit(c05ChanUnits).ToSatoshis()) - 600
 		}
 		acct := &account.Account{
 			Value:  value,
